@@ -2,7 +2,7 @@
    reports errors at the position of a token of the input, and the schema it builds has unique
    names, non-empty roots and (strict mode) a type for every field. *)
 From Coq Require Import List NArith Bool Lia ZifyN ZifyNat ZifyBool Arith.
-From Stef.Idl Require Import Lexer Ast Parser TokSpec.
+From Stef.Idl Require Import Lexer Ast Parser TokSpec SchemaSpec.
 Import ListNotations.
 Open Scope N_scope.
 
@@ -376,8 +376,9 @@ Proof.
         eapply rspec_weaken;
           [eapply (rspec_bind _ _ idts fst 1 K0 QT (fun r => sd_ok b sch (snd r))); [apply eat_spec; [exact Hok5|discriminate]|]| |].
         -- intros ts6 Hok6 Hl6 _. apply rspec_ok; cbn [fst snd]; [exact Hok6|lia|].
-           unfold sd_ok. cbn [is_name is_fields is_root is_rec]. repeat split; auto.
-           intros Hr. subst root. destruct fields; [discriminate|discriminate].
+           unfold sd_ok. cbn [is_name is_fields is_root is_rec].
+           split; [exact Eu|split; [exact Hfo|split; [|reflexivity]]].
+           intros Hr Hnil. subst. discriminate Er.
         -- intros a. cbn beta. lia.
         -- auto.
       * intros a. cbn beta. lia.
@@ -387,4 +388,294 @@ Proof.
   - instantiate (1 := 2%nat). lia.
   - intros a. cbn beta. lia.
   - auto.
+Qed.
+
+(* ---------- multimaps ---------- *)
+Lemma multimap_field_spec : forall b ts0 ts, okst ts0 ts ->
+  rspec fst K0 (fun r => b = true -> shape (snd r)) ts0 ts (parse_multimap_field b ts).
+Proof.
+  intros b ts0 ts Hok. unfold parse_multimap_field.
+  eapply rspec_weaken;
+    [eapply (rspec_bind _ _ fst fst 0 K0 (fun r => b = true -> shape (snd r)) (fun r => b = true -> shape (snd r)));
+     [apply field_type_spec; exact Hok|]| |].
+  - intros [ts1 ft] Hok1 Hl1 Hsh. cbn [fst snd] in *.
+    destruct (is ts1 TkDict) eqn:E.
+    + eapply rspec_weaken;
+        [eapply (rspec_bind _ _ fst fst 1 K0 QT (fun r => b = true -> shape (snd r))); [apply dict_modifier_spec; assumption|]| |].
+      * intros [ts2 d] Hok2 Hl2 _. cbn [fst] in *. apply rspec_ok; cbn [fst snd]; [exact Hok2|lia|].
+        intros Hb. apply set_dict_shape. auto.
+      * intros a. cbn beta. lia.
+      * auto.
+    + apply rspec_ok; cbn [fst snd]; [exact Hok1|lia|exact Hsh].
+  - intros a. cbn beta. lia.
+  - auto.
+Qed.
+
+Definition md_ok (b : bool) (sch : ischema) (md : imdef) : Prop :=
+  top_level_used sch (im_name md) = false /\ (b = true -> shape (im_key md) /\ shape (im_val md)) /\ im_rec md = false.
+
+Lemma parse_multimap_spec : forall b ts0 ts sch, okst ts0 ts -> is_eof (cur ts) = false ->
+  rspec fst K1 (fun r => md_ok b sch (snd r)) ts0 ts (parse_multimap b ts sch).
+Proof.
+  intros b ts0 ts sch Hok Hne. unfold parse_multimap.
+  destruct (adv_ok' ts0 ts Hok Hne) as [Hok1 Hl1].
+  destruct (is (advance ts) TkIdent) eqn:E; cbn [negb]; [|apply perr_spec; exact Hok1].
+  destruct (top_level_used sch (t_ident (cur (advance ts)))) eqn:Eu; [apply perr_spec; exact Hok1|].
+  destruct (adv_ok ts0 _ TkIdent Hok1 E) as [Hok2 Hl2]; [discriminate|].
+  eapply rspec_weaken;
+    [eapply rspec_from;
+     [eapply (rspec_bind _ _ idts fst 1 K0 QT (fun r => md_ok b sch (snd r))); [apply eat_spec; [exact Hok2|discriminate]|]|]| |].
+  - intros ts3 Hok3 Hl3 _. cbn beta in *.
+    eapply rspec_weaken;
+      [eapply (rspec_bind _ _ idts fst 1 K0 QT (fun r => md_ok b sch (snd r))); [apply eat_spec; [exact Hok3|discriminate]|]| |].
+    + intros ts4 Hok4 Hl4 _. cbn beta in *.
+      eapply rspec_weaken;
+        [eapply (rspec_bind _ _ fst fst 0 K0 (fun r => b = true -> shape (snd r)) (fun r => md_ok b sch (snd r)));
+         [apply multimap_field_spec; exact Hok4|]| |].
+      * intros [ts5 k] Hok5 Hl5 Hk. cbn [fst snd] in *.
+        eapply rspec_weaken;
+          [eapply (rspec_bind _ _ idts fst 1 K0 QT (fun r => md_ok b sch (snd r))); [apply eat_spec; [exact Hok5|discriminate]|]| |].
+        -- intros ts6 Hok6 Hl6 _. cbn beta in *.
+           eapply rspec_weaken;
+             [eapply (rspec_bind _ _ fst fst 0 K0 (fun r => b = true -> shape (snd r)) (fun r => md_ok b sch (snd r)));
+              [apply multimap_field_spec; exact Hok6|]| |].
+           ++ intros [ts7 v] Hok7 Hl7 Hv. cbn [fst snd] in *.
+              eapply rspec_weaken;
+                [eapply (rspec_bind _ _ idts fst 1 K0 QT (fun r => md_ok b sch (snd r))); [apply eat_spec; [exact Hok7|discriminate]|]| |].
+              ** intros ts8 Hok8 Hl8 _. apply rspec_ok; cbn [fst snd]; [exact Hok8|lia|].
+                 unfold md_ok. cbn [im_name im_key im_val im_rec]. split; [exact Eu|split; [auto|reflexivity]].
+              ** intros a. cbn beta. lia.
+              ** auto.
+           ++ intros a. cbn beta. lia.
+           ++ auto.
+        -- intros a. cbn beta. lia.
+        -- auto.
+      * intros a. cbn beta. lia.
+      * auto.
+    + intros a. cbn beta. lia.
+    + auto.
+  - instantiate (1 := 2%nat). lia.
+  - intros a. cbn beta. lia.
+  - auto.
+Qed.
+
+(* ---------- enums ---------- *)
+Notation pje := (fun r : list token * list (str * N) * bool => fst (fst r)).
+
+Lemma enum_field_spec : forall ts0 ts fields, okst ts0 ts ->
+  rspec pje (fun r => if snd r then 1%nat else 0%nat) QT ts0 ts (parse_enum_field ts fields).
+Proof.
+  intros ts0 ts fields Hok. unfold parse_enum_field.
+  destruct (is ts TkIdent) eqn:E; cbn [negb].
+  2:{ apply rspec_ok; cbn [fst snd]; [exact Hok|lia|exact I]. }
+  destruct (adv_ok ts0 ts TkIdent Hok E) as [Hok1 Hl1]; [discriminate|].
+  eapply rspec_weaken;
+    [eapply rspec_from;
+     [eapply (rspec_bind _ _ idts pje 1 K0 QT (fun r => snd r = true)); [apply eat_spec; [exact Hok1|discriminate]|]|exact Hl1]| |].
+  - intros ts2 Hok2 Hl2 _. cbn beta in *.
+    destruct (is ts2 TkIntNumber) eqn:En; cbn [negb]; [|apply perr_spec; exact Hok2].
+    destruct (adv_ok ts0 ts2 TkIntNumber Hok2 En) as [Hok3 Hl3]; [discriminate|].
+    apply rspec_ok; cbn [fst snd]; [exact Hok3|lia|reflexivity].
+  - intros [[ts' fs'] ok]. cbn [snd]. destruct ok; lia.
+  - auto.
+Qed.
+
+Lemma enum_fields_spec : forall ts0 fuel ts fields, okst ts0 ts -> (length ts < fuel)%nat ->
+  rspec fst K0 QT ts0 ts (parse_enum_fields fuel ts fields).
+Proof.
+  intros ts0. induction fuel as [|fuel IH]; intros ts fields Hok Hf; [lia|].
+  cbn [parse_enum_fields].
+  pose proof (enum_field_spec ts0 ts fields Hok) as H.
+  destruct (parse_enum_field ts fields) as [[[ts1 fs1] ok]|p m|]; cbn [bind rspec] in *; auto.
+  cbn [fst snd] in H. destruct H as [Hok1 [Hl1 _]].
+  destruct ok.
+  - eapply rspec_weaken; [eapply rspec_from; [apply IH; [exact Hok1|lia]|exact Hl1]| |].
+    + intros a. cbn beta. lia.
+    + auto.
+  - apply rspec_ok; cbn [fst snd]; [exact Hok1|lia|exact I].
+Qed.
+
+Lemma parse_enum_spec : forall ts0 fuel ts sch, okst ts0 ts -> is_eof (cur ts) = false -> (length ts < fuel)%nat ->
+  rspec fst K1 (fun r => top_level_used sch (ie_name (snd r)) = false) ts0 ts (parse_enum fuel ts sch).
+Proof.
+  intros ts0 fuel ts sch Hok Hne Hf. unfold parse_enum.
+  destruct (adv_ok' ts0 ts Hok Hne) as [Hok1 Hl1].
+  destruct (is (advance ts) TkIdent) eqn:E; cbn [negb]; [|apply perr_spec; exact Hok1].
+  destruct (top_level_used sch (t_ident (cur (advance ts)))) eqn:Eu; [apply perr_spec; exact Hok1|].
+  destruct (adv_ok ts0 _ TkIdent Hok1 E) as [Hok2 Hl2]; [discriminate|].
+  eapply rspec_weaken;
+    [eapply rspec_from;
+     [eapply (rspec_bind _ _ idts fst 1 K0 QT (fun r => top_level_used sch (ie_name (snd r)) = false));
+      [apply eat_spec; [exact Hok2|discriminate]|]|]| |].
+  - intros ts3 Hok3 Hl3 _. cbn beta in *.
+    eapply rspec_weaken;
+      [eapply (rspec_bind _ _ fst fst 0 K0 QT (fun r => top_level_used sch (ie_name (snd r)) = false));
+       [apply enum_fields_spec; [exact Hok3|lia]|]| |].
+    + intros [ts4 fs] Hok4 Hl4 _. cbn [fst] in *.
+      eapply rspec_weaken;
+        [eapply (rspec_bind _ _ idts fst 1 K0 QT (fun r => top_level_used sch (ie_name (snd r)) = false));
+         [apply eat_spec; [exact Hok4|discriminate]|]| |].
+      * intros ts5 Hok5 Hl5 _. apply rspec_ok; cbn [fst snd ie_name]; [exact Hok5|lia|exact Eu].
+      * intros a. cbn beta. lia.
+      * auto.
+    + intros a. cbn beta. lia.
+    + auto.
+  - instantiate (1 := 2%nat). lia.
+  - intros a. cbn beta. lia.
+  - auto.
+Qed.
+
+(* ---------- the schema under construction ---------- *)
+From Coq Require Import Permutation.
+
+Definition struct_ok (b : bool) (sd : isdef) : Prop :=
+  fields_ok b (is_fields sd) /\ (is_root sd = true -> is_fields sd <> []) /\ is_rec sd = false.
+Definition mmap_ok (b : bool) (md : imdef) : Prop :=
+  (b = true -> shape (im_key md) /\ shape (im_val md)) /\ im_rec md = false.
+
+Definition sch_ok (b : bool) (sch : ischema) : Prop :=
+  NoDup (top_names sch) /\ Forall (struct_ok b) (i_structs sch) /\ Forall (mmap_ok b) (i_mmaps sch).
+
+Lemma find_struct_none : forall l n, find_struct l n = None -> ~ In n (map is_name l).
+Proof.
+  induction l as [|s l IH]; intros n H; cbn [find_struct map In] in *; [tauto|].
+  destruct (str_eqb (is_name s) n) eqn:E; [discriminate|].
+  intros [Ex|Hin]; [subst; now rewrite str_eqb_refl in E|exact (IH n H Hin)].
+Qed.
+Lemma find_mmap_none : forall l n, find_mmap l n = None -> ~ In n (map im_name l).
+Proof.
+  induction l as [|s l IH]; intros n H; cbn [find_mmap map In] in *; [tauto|].
+  destruct (str_eqb (im_name s) n) eqn:E; [discriminate|].
+  intros [Ex|Hin]; [subst; now rewrite str_eqb_refl in E|exact (IH n H Hin)].
+Qed.
+Lemma find_enum_none : forall l n, find_enum l n = None -> ~ In n (map ie_name l).
+Proof.
+  induction l as [|s l IH]; intros n H; cbn [find_enum map In] in *; [tauto|].
+  destruct (str_eqb (ie_name s) n) eqn:E; [discriminate|].
+  intros [Ex|Hin]; [subst; now rewrite str_eqb_refl in E|exact (IH n H Hin)].
+Qed.
+
+Lemma top_level_unused : forall sch n, top_level_used sch n = false -> ~ In n (top_names sch).
+Proof.
+  intros sch n H. unfold top_level_used, has_struct, has_mmap, has_enum in H.
+  destruct (find_struct (i_structs sch) n) eqn:E1; [discriminate|].
+  destruct (find_mmap (i_mmaps sch) n) eqn:E2; [discriminate|].
+  destruct (find_enum (i_enums sch) n) eqn:E3; [discriminate|].
+  unfold top_names. intros Hin. apply in_app_or in Hin. destruct Hin as [Hin|Hin]; [exact (find_struct_none _ _ E1 Hin)|].
+  apply in_app_or in Hin. destruct Hin as [Hin|Hin]; [exact (find_mmap_none _ _ E2 Hin)|exact (find_enum_none _ _ E3 Hin)].
+Qed.
+
+Lemma NoDup_insert : forall (l1 l2 : list str) n, NoDup (l1 ++ l2) -> ~ In n (l1 ++ l2) -> NoDup (l1 ++ n :: l2).
+Proof.
+  intros l1 l2 n Hnd Hn. eapply Permutation_NoDup; [apply Permutation_middle|]. constructor; assumption.
+Qed.
+
+Lemma sch_ok_add_struct : forall b sch s, sch_ok b sch -> sd_ok b sch s -> sch_ok b (add_struct sch s).
+Proof.
+  intros b sch s [Hnd [Hs Hm]] [Hu [Hf [Hr Hrec]]]. unfold sch_ok, add_struct, top_names in *. cbn [i_structs i_mmaps i_enums].
+  split; [|split; [|exact Hm]].
+  - rewrite map_app. cbn [map]. rewrite <- app_assoc. cbn [app]. apply NoDup_insert; [exact Hnd|].
+    apply top_level_unused. exact Hu.
+  - apply Forall_app. split; [exact Hs|]. constructor; [|constructor]. split; [exact Hf|split; assumption].
+Qed.
+
+Lemma sch_ok_add_mmap : forall b sch m, sch_ok b sch -> md_ok b sch m -> sch_ok b (add_mmap sch m).
+Proof.
+  intros b sch m [Hnd [Hs Hm]] [Hu [Hsh Hrec]]. unfold sch_ok, add_mmap, top_names in *. cbn [i_structs i_mmaps i_enums].
+  split; [|split; [exact Hs|]].
+  - rewrite map_app. cbn [map]. rewrite <- (app_assoc (map im_name (i_mmaps sch))). cbn [app].
+    rewrite app_assoc. apply NoDup_insert; [rewrite <- app_assoc; exact Hnd|].
+    rewrite <- app_assoc. apply (top_level_unused sch). exact Hu.
+  - apply Forall_app. split; [exact Hm|]. constructor; [|constructor]. split; assumption.
+Qed.
+
+Lemma sch_ok_add_enum : forall b sch e, sch_ok b sch -> top_level_used sch (ie_name e) = false -> sch_ok b (add_enum sch e).
+Proof.
+  intros b sch e [Hnd [Hs Hm]] Hu. unfold sch_ok, add_enum, top_names in *. cbn [i_structs i_mmaps i_enums].
+  split; [|split; assumption].
+  rewrite map_app. cbn [map]. rewrite !app_assoc. apply NoDup_snoc; [rewrite <- !app_assoc; exact Hnd|].
+  rewrite <- !app_assoc. apply (top_level_unused sch). exact Hu.
+Qed.
+
+Lemma kind_not_eof : forall ts k, kind ts = k -> k <> TkEOF -> is_eof (cur ts) = false.
+Proof. intros ts k E Hk. apply (is_not_eof ts k); [unfold is; rewrite E; destruct k; reflexivity|exact Hk]. Qed.
+
+Lemma parse_def_spec : forall b ts0 fuel0 ts sch, okst ts0 ts -> (length ts < fuel0)%nat -> sch_ok b sch ->
+  rspec fst K1 (fun r => sch_ok b (snd r)) ts0 ts (parse_def b fuel0 ts sch).
+Proof.
+  intros b ts0 fuel0 ts sch Hok Hf Hso. unfold parse_def.
+  destruct (kind ts) eqn:Ek; try (apply perr_spec; exact Hok).
+  - eapply rspec_weaken;
+      [eapply (rspec_bind _ _ fst fst 1 K0 (fun r => sd_ok b sch (snd r)) (fun r => sch_ok b (snd r)));
+       [apply parse_struct_spec; [exact Hok|apply (kind_not_eof ts _ Ek); discriminate|exact Hf]|]| |].
+    + intros [ts1 s] Hok1 Hl1 Hq. cbn [fst snd] in *. apply rspec_ok; cbn [fst snd]; [exact Hok1|lia|].
+      apply sch_ok_add_struct; assumption.
+    + intros a. cbn beta. lia.
+    + auto.
+  - eapply rspec_weaken;
+      [eapply (rspec_bind _ _ fst fst 1 K0 (fun r => sd_ok b sch (snd r)) (fun r => sch_ok b (snd r)));
+       [apply parse_struct_spec; [exact Hok|apply (kind_not_eof ts _ Ek); discriminate|exact Hf]|]| |].
+    + intros [ts1 s] Hok1 Hl1 Hq. cbn [fst snd] in *. apply rspec_ok; cbn [fst snd]; [exact Hok1|lia|].
+      apply sch_ok_add_struct; assumption.
+    + intros a. cbn beta. lia.
+    + auto.
+  - eapply rspec_weaken;
+      [eapply (rspec_bind _ _ fst fst 1 K0 (fun r => md_ok b sch (snd r)) (fun r => sch_ok b (snd r)));
+       [apply parse_multimap_spec; [exact Hok|apply (kind_not_eof ts _ Ek); discriminate]|]| |].
+    + intros [ts1 m] Hok1 Hl1 Hq. cbn [fst snd] in *. apply rspec_ok; cbn [fst snd]; [exact Hok1|lia|].
+      apply sch_ok_add_mmap; assumption.
+    + intros a. cbn beta. lia.
+    + auto.
+  - eapply rspec_weaken;
+      [eapply (rspec_bind _ _ fst fst 1 K0 (fun r => top_level_used sch (ie_name (snd r)) = false) (fun r => sch_ok b (snd r)));
+       [apply parse_enum_spec; [exact Hok|apply (kind_not_eof ts _ Ek); discriminate|exact Hf]|]| |].
+    + intros [ts1 e] Hok1 Hl1 Hq. cbn [fst snd] in *. apply rspec_ok; cbn [fst snd]; [exact Hok1|lia|].
+      apply sch_ok_add_enum; assumption.
+    + intros a. cbn beta. lia.
+    + auto.
+Qed.
+
+Lemma parse_defs_spec : forall b ts0 fuel0 fuel ts sch, okst ts0 ts -> (length ts < fuel0)%nat -> (length ts < fuel)%nat ->
+  sch_ok b sch -> rspec fst K1 (fun r => sch_ok b (snd r)) ts0 ts (parse_defs b fuel0 fuel ts sch).
+Proof.
+  intros b ts0 fuel0. induction fuel as [|fuel IH]; intros ts sch Hok Hf0 Hf Hso; [lia|].
+  cbn [parse_defs].
+  pose proof (parse_def_spec b ts0 fuel0 ts sch Hok Hf0 Hso) as H.
+  destruct (parse_def b fuel0 ts sch) as [[ts1 sch1]|p m|]; cbn [bind rspec] in *; auto.
+  cbn [fst snd] in H. destruct H as [Hok1 [Hl1 Hso1]].
+  destruct (is ts1 TkEOF).
+  - apply rspec_ok; cbn [fst snd]; [exact Hok1|lia|exact Hso1].
+  - eapply rspec_weaken; [eapply rspec_from; [apply IH; [exact Hok1|lia|lia|exact Hso1]|exact Hl1]| |].
+    + intros a. cbn beta. lia.
+    + auto.
+Qed.
+
+(* Parser.Parse before ResolveRefs *)
+Theorem parse_tokens_spec : forall b ts, wfts ts ->
+  rspec fst K1 (fun r => sch_ok b (snd r)) ts ts (parse_tokens b ts).
+Proof.
+  intros b ts Hwf. unfold parse_tokens.
+  assert (Hok : okst ts ts) by (split; [exact Hwf|apply sfx_refl]).
+  eapply rspec_weaken;
+    [eapply (rspec_bind _ _ fst fst 1 K1 QT (fun r => sch_ok b (snd r))); [apply parse_package_spec; [exact Hok|lia]|]| |].
+  - intros [ts1 pkg] Hok1 Hl1 _. cbn [fst] in *. apply parse_defs_spec; [exact Hok1|lia|lia|].
+    split; [constructor|split; constructor].
+  - intros a. cbn beta. lia.
+  - auto.
+Qed.
+
+(* consequences in plain words *)
+Corollary parse_tokens_no_fuel : forall b ts, wfts ts -> parse_tokens b ts <> Fuel.
+Proof. intros b ts Hwf H. pose proof (parse_tokens_spec b ts Hwf) as S. rewrite H in S. exact S. Qed.
+
+Corollary parse_tokens_err_pos : forall b ts p m, wfts ts -> parse_tokens b ts = Err p m ->
+  exists t, In t ts /\ p = t_pos t.
+Proof. intros b ts p m Hwf H. pose proof (parse_tokens_spec b ts Hwf) as S. rewrite H in S. exact S. Qed.
+
+Corollary parse_tokens_ok : forall b ts ts' sch, wfts ts -> parse_tokens b ts = Ok (ts', sch) ->
+  In (cur ts') ts /\ sch_ok b sch.
+Proof.
+  intros b ts ts' sch Hwf H. pose proof (parse_tokens_spec b ts Hwf) as S. rewrite H in S.
+  cbn [rspec fst snd] in S. destruct S as [[Hw Hs] [_ Hq]]. split; [|exact Hq].
+  eapply sfx_in; [exact Hs|]. apply cur_in. now apply wfts_nonempty.
 Qed.
